@@ -136,7 +136,7 @@ def search(seed=0, windows=40):
 
 if __name__ == "__main__":
     seed = int(os.environ.get("VERIF_SEED", "0") or 0)
-    n, bad = search(seed, 40 if "--thorough" not in sys.argv else 400)
+    n, bad = search(seed, 40 if "--thorough" not in sys.argv else 4000)
     out = {"status": "ok" if bad is None else "violation", "bound": "24 fingerprints across every bound x op sequences depth<=4 (with a reference model of pending second signals); Treg table x rules; 40 random training windows incl. re-training on a changed window (seeded)",
            "cases": n}
     if bad:
